@@ -1187,6 +1187,10 @@ V('pivot', lambda e, w: e.pivot(w.s[0], 'b', 'a', 'c', sum))
 V('unflatten', lambda e, w: e.unflatten(e.values(w.s[0], 'c'), 1),
   lambda e, w: e.unflatten(w.s[0], 'b', 2))
 V('capture',
+  # (a list of fill values shorter than the number of groups)
+  lambda e, w: e.capture(w.s[0], 'e', r'(\d)(x)?(y)?', ['n', 'm', 'o'],
+                         fill=w.arg(['?'])))
+V('capture',
   # (no fill: a value that does not match is an error)
   lambda e, w: e.capture(w.s[0], 'e', r'(\d)', ['n']),
   lambda e, w: e.capture(w.s[0], 'e', r'(\d)', ['n'], fill=['-']),
